@@ -294,6 +294,12 @@ UNITS = [
       props={'memsafe': ['C13'], 'ub': ['C13']},
       assumes=['plain symbolic execution of the real Parameter::write / writeImbricatedParameter / toUpper over the stream model; values and '
                'shape are consistent (what Parameter::set guarantees: units Parameter_set_int, isDimensionConsistent)']),
+    U('B_Parameter_write_byte_1d', 'contracts/bounded_parameter_write.c', 'h_B_Parameter_write_int', [], ['C04', 'C03', 'C12', 'C14', 'C13'], mode='bmc', defines=['VF_ND=1', 'VF_W=1'],
+      unwind=6, unwindset={'vf_stream_write.0': 6}, timeout=1200, level='B', object_bits=12,
+      bound='BYTE parameter (type code 1, as a loaded file can hold), name 1..2 characters, description <= 2, 1 dimension of at most 2, start offset <= 1',
+      props={'memsafe': ['C13'], 'ub': ['C13']},
+      assumes=['plain symbolic execution of the real Parameter::write / writeImbricatedParameter / toUpper over the stream model; values and '
+               'shape are consistent (what the reader produces for a BYTE record: unit B_Parameter_read)']),
     U('B_Parameter_write_char1d_bmc', 'contracts/bounded_parameter_write.c', 'h_B_Parameter_write_char1d', [], ['C03', 'C04', 'C14', 'C13'], mode='bmc',
       unwind=6, unwindset={'vf_stream_write.0': 6}, timeout=1200, level='B', object_bits=12,
       bound='one-dimensional CHAR parameter of declared width 1..4, text no longer than the width, name 1..2 characters, description <= 2',
@@ -358,6 +364,13 @@ UNITS = [
       assumes=['the body is the C model of std::vector<Frame> (model/vf_std.h, macro VF_VEC_DEFINE_O, element hooks = the lowered Frame '
                'constructors), not libstdc++: this unit checks the contract the Data::frame units rely on against that body'])
     for f in ('push_back', 'resize', 'resize_fill')] + [
+] + [
+    U('B_' + n, 'contracts/bounded_lookups.c', 'h_B_' + n, [], ['C11', 'C13'], mode='bmc', unwind=5, timeout=600, level='B', object_bits=12,
+      bound='at most 3 elements, names of at most 2 characters',
+      props={'memsafe': ['C13'], 'ub': ['C13']},
+      assumes=['plain symbolic execution of the real look-up with the positional accessor, the name getter and the string comparison '
+               'of the model inlined; the unbounded proof of the same clauses is the thorough-tier unit ' + n])
+    for n in ('Points_pointIdx', 'SubFrame_channelIdx', 'Group_parameterIdx', 'Parameters_groupIdx')] + [
     U('AST_static_storage', 'extract/lower.py', '-', [], ['C18'], mode='ast',
       assumes=['static and namespace-scope variable definitions as clang reports them for the 12 translation units']),
     U('B_Points_write', 'contracts/bounded_data_write.c', 'h_B_Points_write', [], ['C01', 'C03', 'C12', 'C14', 'C13'], mode='bmc',
